@@ -20,12 +20,14 @@ EPOCH = 1_700_000_000.0
 class VClock:
     def __init__(self):
         self.now = EPOCH
+        self.mono = 1000.0
         self.reads = 0
         self.on_read = None  # callable(clock) invoked after every read
         self.tick_per_read = 0.0
 
     def reset(self, now=EPOCH):
         self.now = now
+        self.mono = 1000.0
         self.reads = 0
         self.on_read = None
         self.tick_per_read = 0.0
@@ -41,6 +43,13 @@ class VClock:
 
     def advance(self, delta):
         self.now += delta
+        self.mono += delta
+
+    def set_mono(self, when):
+        """advance to exactly the monotonic instant *when* (no rounding)"""
+        if when > self.mono:
+            self.now += when - self.mono
+            self.mono = when
 
 
 CLOCK = VClock()
@@ -53,7 +62,7 @@ def _vtime():
 
 def _vmono():
     # monotonic reads are not reported as "reads" of the wall clock
-    return CLOCK.now - EPOCH + 1000.0
+    return CLOCK.mono
 
 
 def install():
